@@ -101,7 +101,7 @@ func Gen(t *rapid.T, max int) []Mut {
 	n := rapid.IntRange(1, max).Draw(t, "nmut")
 	out := make([]Mut, 0, n)
 	for i := 0; i < n; i++ {
-		m := Mut{Op: rapid.SampledFrom([]string{"bytes", "bytes", "payload", "payload", "size", "size", "count", "count", "truncate", "drop", "drop", "dup", "swap", "rename", "insert", "insert", "zero", "verflags", "verflags", "wrap", "largesize"}).Draw(t, "op")}
+		m := Mut{Op: rapid.SampledFrom([]string{"bytes", "bytes", "payload", "payload", "size", "size", "count", "count", "truncate", "drop", "drop", "dup", "swap", "rename", "insert", "insert", "zero", "verflags", "verflags", "wrap", "largesize", "emptytable"}).Draw(t, "op")}
 		m.Box = rapid.IntRange(0, 400).Draw(t, "box")
 		switch m.Op {
 		case "bytes": // overwrite 1..8 bytes at an absolute offset (modulo length)
@@ -128,7 +128,16 @@ func Gen(t *rapid.T, max int) []Mut {
 		case "zero":
 			m.Off = rapid.IntRange(0, 200).Draw(t, "off")
 			m.N = rapid.IntRange(1, 64).Draw(t, "n")
+		case "emptytable": // entry count at payload offset Off set to 0 and the box cut right behind it (parents fixed up)
+			m.Off = rapid.SampledFrom([]int{4, 4, 4, 8, 12, 12, 16, 0}).Draw(t, "off")
 		case "verflags":
+			if rapid.IntRange(0, 2).Draw(t, "vfKind") == 0 {
+				// a chosen version with chosen flags (versions above those a box defines are the interesting ones)
+				ver := rapid.SampledFrom([]uint64{0, 1, 2, 3, 4, 0x7f, 0x80, 0xff}).Draw(t, "version")
+				fl := rapid.SampledFrom([]uint64{0, 1, 2, 3, 4, 7, 0x100, 0x301, 0xf01, 0x20000, 0xffffff}).Draw(t, "flags")
+				m.Val = ver<<24 | fl
+				break
+			}
 			m.Val = rapid.OneOf(rapid.SampledFrom([]uint64{0, 1, 2, 0x01000000, 0x00000001, 0x00000002, 0x00000004, 0x00000100, 0x00000200, 0x00000400, 0x00000800, 0x00000f01, 0x00020000, 0x00ffffff, 0xffffffff}), rapid.Uint64Range(0, 0xffffffff)).Draw(t, "vf")
 		case "largesize": // give the box a 64-bit size header: N=0 keeps the length, N=1 claims Val
 			// N=2: the 64-bit size is the (negative) distance back to the start of box number Val, N=3: 2^64-Val
@@ -301,6 +310,24 @@ func Apply(seed []byte, muts []Mut) []byte {
 			for i := off; i < off+m.N && i < b.End(); i++ {
 				data[i] = 0
 			}
+		case "emptytable":
+			if b == nil || b.ToEnd || b.PayloadStart()+m.Off+4 > b.End() || boxwalk.IsContainer(b.Type) {
+				continue
+			}
+			cut := b.PayloadStart() + m.Off + 4
+			delta := cut - b.End()
+			if delta == 0 {
+				binary.BigEndian.PutUint32(data[cut-4:], 0)
+				continue
+			}
+			fixParents(data, tree, b.Start+1, delta)
+			if b.Large {
+				binary.BigEndian.PutUint64(data[b.Start+8:], uint64(b.Size+delta))
+			} else {
+				binary.BigEndian.PutUint32(data[b.Start:], uint32(b.Size+delta))
+			}
+			binary.BigEndian.PutUint32(data[cut-4:], 0)
+			data = append(data[:cut], data[b.End():]...)
 		case "verflags":
 			if b == nil || b.PayloadStart()+4 > b.End() {
 				continue
